@@ -9,6 +9,7 @@ import (
 	"bufio"
 	"encoding/hex"
 	"fmt"
+	"math/big"
 	"os"
 	"sort"
 	"strings"
@@ -290,10 +291,10 @@ func (r *Rng) Pick(weights ...int) int {
 	return len(weights) - 1
 }
 
-// BigBits returns a uniformly random non-negative integer below 2^bits.
-func (r *Rng) BigBits(bits int) sdkmath.Int {
+// BigRaw returns a uniformly random non-negative big integer below 2^bits.
+func (r *Rng) BigRaw(bits int) *big.Int {
 	if bits <= 0 {
-		return sdkmath.ZeroInt()
+		return new(big.Int)
 	}
 	nb := (bits + 7) / 8
 	b := make([]byte, nb)
@@ -302,10 +303,12 @@ func (r *Rng) BigBits(bits int) sdkmath.Int {
 	}
 	extra := nb*8 - bits
 	b[0] &= 0xff >> uint(extra)
-	v, _ := sdkmath.NewIntFromString("0")
-	x := v.BigInt()
-	x.SetBytes(b)
-	return sdkmath.NewIntFromBigInt(x)
+	return new(big.Int).SetBytes(b)
+}
+
+// BigBits returns a uniformly random non-negative sdkmath.Int below 2^bits (bits <= 256).
+func (r *Rng) BigBits(bits int) sdkmath.Int {
+	return sdkmath.NewIntFromBigInt(r.BigRaw(bits))
 }
 
 // Amount draws an amount with a log-uniform bit length in [1,maxBits], at least 1.
